@@ -241,6 +241,13 @@ func newAppOpt(sess bool) *server.AppEncryption {
 	return server.NewAppEncryption(o)
 }
 
+// newAppUnsetDurations builds the service the way the sidecar runs when it is started without --expire-after and
+// --check-interval (both are optional and have no default): the policy then carries zero durations, every key counts
+// as expired as soon as it exists and every use re-checks it.
+func newAppUnsetDurations() *server.AppEncryption {
+	return server.NewAppEncryption(&server.Options{ServiceName: "svc", ProductID: "prod", Metastore: "memory", KMS: "static"})
+}
+
 // materialsFor makes one material per partition: its own genuine record plus the next partition's as the foreign one.
 func materialsFor(app *server.AppEncryption, parts []string) map[string]*material {
 	recs := map[string]*material{}
@@ -341,12 +348,15 @@ func makeMaterialPart(app *server.AppEncryption, own string) *material {
 
 func TestC19(t *testing.T) {
 	r := ev.Start("C19", "exploration")
-	r.Rule("(1) every request sequence up to length L over {get-session valid / empty id, encrypt, decrypt genuine / foreign-partition / bit-flipped / structurally empty record (4 shapes), empty request}, each followed by end-of-stream, is played through AppEncryption.Session (built by NewAppEncryption from an Options value: memory metastore + static KMS, once without and once with the shared session cache of 2 sessions) on an in-process stream; a reference protocol automaton {uninitialised, initialised, rejected-get-session} gives the expected response class per request, responses are counted per request, panics are recovered per sequence. (2) seeded sequences of length 40 on 8 concurrent streams per round, spread over three partitions (so that cached sessions are shared between streams and evicted while in use), over real gRPC (bufconn) under the race detector, for both server variants, same automaton per stream. (3) 8 lock-step streams per round against a server whose SDK caches nothing while the metastore alternates between healthy and failing (all reads / only system-key reads / only intermediate-key reads, per round) with a different error text every time: each request gets exactly one response (the right answer or an error response). (4) a stream whose k-th Send fails while another stream of the same partition is open, followed by evictions: the healthy stream keeps working. Distinct+non-trivial: distinct sequences that reached an initialised session.")
+	r.Rule("(1) every request sequence up to length L over {get-session valid / empty id, encrypt, decrypt genuine / foreign-partition / bit-flipped / structurally empty record (4 shapes), empty request}, each followed by end-of-stream, is played through AppEncryption.Session (built by NewAppEncryption from an Options value: memory metastore + static KMS, once without and once with the shared session cache of 2 sessions, and once with neither --expire-after nor --check-interval given) on an in-process stream; a reference protocol automaton {uninitialised, initialised, rejected-get-session} gives the expected response class per request, responses are counted per request, panics are recovered per sequence. (2) seeded sequences of length 40 on 8 concurrent streams per round, spread over three partitions (so that cached sessions are shared between streams and evicted while in use), over real gRPC (bufconn) under the race detector, for both server variants, same automaton per stream. (3) 8 lock-step streams per round against a server whose SDK caches nothing while the metastore alternates between healthy and failing (all reads / only system-key reads / only intermediate-key reads, per round) with a different error text every time: each request gets exactly one response (the right answer or an error response). (4) a stream whose k-th Send fails while another stream of the same partition is open, followed by evictions: the healthy stream keeps working. (5) a sidecar that outlives --expire-after, in virtual time: a long-lived stream encrypts, idles past the key lifetime, rotates, and old and new records are requested through the same stream and through new streams of the same and another partition. Distinct+non-trivial: distinct sequences that reached an initialised session.")
 	r.Assume("the server binary's main() is not exercised, only pkg/server; a handler panic under a real grpc.Server kills the process (detected by the check script as a crash)")
 	n := 0
-	Ls := []int{ev.Pick(4, 5), ev.Pick(3, 4)}
-	for vi, sess := range []bool{false, true} {
+	Ls := []int{ev.Pick(4, 5), ev.Pick(3, 4), ev.Pick(3, 4)}
+	for vi, sess := range []bool{false, true, false} {
 		app := newAppOpt(sess)
+		if vi == 2 {
+			app = newAppUnsetDurations()
+		}
 		mat := makeMaterial(app)
 		L := Ls[vi]
 		seq := make([]int, 0, L)
@@ -394,6 +404,7 @@ func TestC19(t *testing.T) {
 		concurrentStreams(t, r, true)
 		faultyBackendStreams(t, r)
 		brokenPeerScenario(r)
+		agedSidecar(t, r)
 	}
 	r.Finish(t)
 }
